@@ -831,7 +831,12 @@ def gen_history(rng, tree, nops):
             else:
                 op = "X%s" % pstr(path + [i])
         elif pick == "d":
-            op = "D%s=%016x" % (pstr(path), rng.choice(LATTICE))
+            nb = rng.choice(LATTICE)
+            if kind == "d" and rng.random() < 0.35:      # relative to the current value: same bits, other sign, neighbour
+                nb = rng.choice([n[1], n[1] ^ (1 << 63), n[1] + 1])
+                if ((nb >> 52) & 0x7ff) == 0x7ff:
+                    nb = n[1]
+            op = "D%s=%016x" % (pstr(path), nb)
         elif pick == "i":
             op = "I%s=%d" % (pstr(path), rng.choice(jvtext.INT_EDGES))
         elif pick == "u":
@@ -992,6 +997,35 @@ def gen(rng, tier):
         addh(plain, ["G@=" + jvtext.hx(b"%.3f"), "W@=" + a], "history-fixed", [0, 2])    # custom format, reset, userdata
         addh(d15, ["Y@=" + jvtext.hx(b"9.75"), "W@=" + a], "history-fixed", [0, 2])
         addh(every, ["%s%d=%s" % (rng.choice("ZW"), i, a) for i in range(len(every))] + ["W8.0=" + a], "history-fixed", [0, 3, 36])
+    # (a'') set_double with a value chosen RELATIVE to the current one: the same bits, the zero of the other sign (the only
+    #       distinct finite pair that compares equal), the neighbours, the sign flipped — on doubles without retained text,
+    #       with one from json_object_new_double_s (several spellings of the same value) and from the parser; all 64 words
+    def rel_values(b):
+        out = [b, b ^ (1 << 63), b + 1, (b - 1) if b & ((1 << 63) - 1) else b + 2]
+        return [x for x in out if ((x >> 52) & 0x7ff) != 0x7ff]
+    spellings = {0.0: [None, b"0.0", b"0.00", b"0e0", b"0.0E+5", b"0.000000000000000000"], -0.0: [None, b"-0.0", b"-0.00", b"-0e0", b"-0.0e-3"],
+                 1.0: [None, b"1.0", b"1.00", b"1e0", b"10e-1", b"0.1E1"], 1.5: [None, b"1.5", b"1.50", b"15e-1"], -2.5e-10: [None, b"-2.5e-10", b"-0.25E-9"],
+                 1e22: [None, b"1e22", b"1.0E+22", b"10000000000000000000000.0"]}
+    for x, texts in spellings.items():
+        b0 = jvtext.dbits(x)
+        for tx in texts:
+            node = ("d", b0, tx)
+            for nb in rel_values(b0):
+                for pre in [[], ["C"]] + ([["R0"], ["R4", "C"]] if tx is None else [["K"]]):
+                    addh(node, pre + ["D@=%016x" % nb],
+                         "setdouble-relative", ALL_FLAGS if (x == 0.0 and nb == b0 ^ (1 << 63) and pre in ([], ["R0"])) else None)
+    for i in range(60 if quick else 600):
+        t = retained_tree(rng) if rng.random() < 0.6 else [("d", rng.choice(LATTICE), None) for _ in range(3)]
+        pre = rng.choice([[], ["C"], ["R%d" % rng.randrange(64)], ["K"]])
+        tt = t
+        ops_ = list(pre)
+        for _ in range(rng.randint(1, 3)):
+            pth = rng.choice(double_paths(tt))
+            cur = [n for q_, n in nodes(tt) if q_ == pth][0]
+            op = "D%s=%016x" % (pstr(pth), rng.choice(rel_values(cur[1])))
+            ops_.append(op)
+            tt, _, _ = hist_step(tt, None, op, None)
+        addh(t, ops_, "setdouble-relative")
     for i in range(150 if quick else 1500):
         t = retained_tree(rng)
         if i % 3 == 0:
